@@ -274,8 +274,12 @@ class _World:
             _PLAIN_THREAD_ATTRS = frozenset(vars(threading.Thread()))
         attrs = {k: v for k, v in vars(self.thread).items() if k not in _PLAIN_THREAD_ATTRS}
         peer = (self.p_sl, self.p_up, self.p_down, self.p_last, self.p_last_data)
-        mon = (self.sub & 3, self.acc & 3, self.sub - self.acc, self.dl_sent & 3, self.rx & 3,
-               self.dl_sent - self.rx, self.run_unacked, self.hit, len(self.errs), self.echoed,
+        # without a confirmed safelink nothing is claimed about delivery: only the ids (mod 4) that
+        # determine future packet contents are state, not the (unbounded) backlog differences
+        track = self.echoed
+        mon = (self.sub & 3, self.acc & 3 if track else 0, self.sub - self.acc if track else 0,
+               self.dl_sent & 3, self.rx & 3 if track else 0, self.dl_sent - self.rx if track else 0,
+               self.run_unacked, self.hit, len(self.errs), self.echoed,
                self.main, self.expect, 0 if self.main else self.probes)
         st = (kind, tuple(options), tuple(sorted((k, _canon(v)) for k, v in attrs.items())),
               tuple(sorted((k, _canon(v)) for k, v in loc.items())), peer, mon)
@@ -600,6 +604,23 @@ def _sample(cfg, hist):
             'link_errors': len(w.errs), 'trace': w.trace[-6:]}
 
 
+_SAMPLE_TAGS = [
+    ('safelink: retransmission after a lost ack is recognised by the peer, then next packet accepted',
+     lambda m, k, ev: m == 'safelink' and 'uplink_retx_ignored' in ev and 'acked' in ev),
+    ('safelink: downlink payload re-sent by the peer after ack loss reaches the application once',
+     lambda m, k, ev: m == 'safelink' and 'dl_retx' in ev and 'rx' in ev),
+    ('safelink: uplink packet accepted while its ack is lost',
+     lambda m, k, ev: m == 'safelink' and 'accept' in ev and 'ack_lost' in ev),
+    ('safelink: link error after N consecutive unacknowledged transmissions (terminal state)',
+     lambda m, k, ev: m == 'safelink' and k == 'end'),
+    ('safelink: zero-length ack', lambda m, k, ev: m == 'safelink' and 'dl_empty' in ev and 'acked' in ev),
+    ('peer enabled safelink but the echo was lost on every probe (driver falls back, needs_resending=True)',
+     lambda m, k, ev: m == 'peer_only_safelink' and 'idle' in ev),
+    ('no safelink: frames carry the application header unchanged',
+     lambda m, k, ev: m == 'plain' and 'accept_unprotected' in ev),
+]
+
+
 def _bfs(ck, cfg, max_depth):
     """Level-synchronous BFS over choice histories with global de-duplication."""
     p = Partial()
@@ -639,30 +660,29 @@ def _bfs(ck, cfg, max_depth):
                             {'part': 'bfs', 'cfg': list(cfg), 'history': list(h2)})
             if new_viol:
                 continue
+            for name, pred in _SAMPLE_TAGS:          # samples are transitions (may lead to a known state)
+                if name not in sample_for and pred(outcome[0], kind, outcome[2]):
+                    sample_for[name] = h2
             if key in seen:
                 continue
             seen.add(key)
             p.states += 1
             by_mode[outcome[0]] = by_mode.get(outcome[0], 0) + 1
-            tag = (outcome[0], kind, outcome[2])
             if kind == 'end':
                 terminal += 1
-            if tag not in sample_for and ('accept' in outcome[2] or 'rx' in outcome[2] or kind == 'end'
-                                          or 'uplink_retx_ignored' in outcome[2]):
-                sample_for[tag] = h2
             if opts:
                 nxt.append((h2, opts))
         frontier = nxt
     else:
         fix = True
-    p.add('max_depth_choices', 0)
     info = {'cfg': list(cfg), 'states': p.states, 'transitions': p.transitions, 'depth': depth,
             'fixpoint': fix, 'terminal_link_error_states': terminal, 'max_transmissions_on_a_path': max_tx,
             'states_by_mode': by_mode}
-    # readable samples: a few interesting states, longest histories first
-    picks = sorted(sample_for.items(), key=lambda kv: (-len(kv[1]), kv[0]))[:3]
-    for _, h in picks:
-        p.sample(_sample(cfg, h))
+    for name, _ in _SAMPLE_TAGS:
+        if name in sample_for:
+            d = _sample(cfg, sample_for[name])
+            d['what'] = name
+            p.sample(d)
     return p, info, seen
 
 
@@ -750,6 +770,53 @@ def part_handoff(maxlen):
     return p
 
 
+# ---- stateless cross-check of the state abstraction ---------------------------------------------------
+
+_SEEN = None
+
+
+def part_stateless(job):
+    """Enumerate EVERY choice history extending ``prefix`` by up to ``extra`` choices WITHOUT
+    de-duplication, re-check the oracle on each, and require that the canonical state of each is one
+    the BFS visited.  If the canonical state forgot something that influences the future, histories
+    pruned by the BFS as "already seen" would lead here to states outside the visited set."""
+    cfg, prefix, extra = job
+    p = Partial()
+    stack = [tuple(prefix)]
+    limit = len(prefix) + extra
+    while stack:
+        h = stack.pop()
+        w = _build(cfg, h)
+        p.case(key=('stateless', cfg, h), outcome=None)
+        p.add('stateless_histories')
+        if w.viol:
+            for pos, sig, what in w.viol:
+                p.violation('%s:%s' % (sig, _mode(w)), '%s [N=%d rate_limit=%r history=%r]' % (
+                    what, cfg[0], cfg[1], list(h)), {'part': 'bfs', 'cfg': list(cfg), 'history': list(h)})
+            continue
+        if _h(w.state) not in _SEEN:
+            raise HarnessError('state abstraction unsound: history %r reaches a canonical state the BFS never '
+                               'visited' % (h,))
+        if len(h) < limit:
+            for c in w.pending[1]:
+                stack.append(h + (c,))
+    return p
+
+
+def _stateless_jobs(cfg, roots, split, extra):
+    jobs = []
+    for root in roots:
+        level = [tuple(root)]
+        for _ in range(split):
+            nxt = []
+            for h in level:
+                w = _build(cfg, h)
+                nxt += [h + (c,) for c in w.pending[1]]
+            level = nxt
+        jobs += [(cfg, h, extra - split) for h in level]
+    return jobs
+
+
 # ---- driver ------------------------------------------------------------------------------------------
 
 def _configs(ck):
@@ -777,16 +844,27 @@ def run(ck):
               'driver announces needs_resending=True and only the link-error, safelink and header clauses apply')
     infos = []
     all_fix = True
-    for cfg in _configs(ck):
-        part, info, _ = _bfs(ck, cfg, max_depth=400)
+    global _POOL, _SEEN
+    for i, cfg in enumerate(_configs(ck)):
+        part, info, seen = _bfs(ck, cfg, max_depth=400)
         ck.merge(part)
         infos.append(info)
         all_fix = all_fix and info['fixpoint']
-    global _POOL
-    if _POOL is not None:
-        _POOL.close()
-        _POOL.join()
-        _POOL = None
+        if _POOL is not None:
+            _POOL.close()
+            _POOL.join()
+            _POOL = None
+        if i == 0 or not ck.quick:
+            # abstraction cross-check: all histories, no de-duplication, after each kind of start-up
+            extra = 8 if ck.quick else (11 if i == 0 else 9)
+            roots = [(S_ECHO,), (S_ACKLOST,) + (S_LOST,) * 9, (S_LOST,) * 10]
+            _SEEN = seen
+            before = ck.evaluations
+            ck.pmap(part_stateless, _stateless_jobs(cfg, roots[:1], 3, extra)
+                    + _stateless_jobs(cfg, roots[1:], 2, extra - 2))
+            info['stateless_histories_cross_checked'] = ck.evaluations - before
+            info['stateless_extra_choices_after_startup'] = extra
+            _SEEN = None
     ck.pmap(part_handoff, [5 if ck.quick else 6])
     ck.note('bfs', infos)
     ck.note('fixpoint_reached_all_configs', all_fix)
